@@ -16,7 +16,7 @@ import (
 
 const rule = "cases: (a) sequences (length 0-30) of maps {k: scalar, id: position} and of bare scalars drawn from pools built to collide (null spellings, booleans, 64-bit edge ints, hex/octal/underscore spellings, floats equal to ints, look-alike strings, duplicates) -> sort / sort_by(.k) must be a permutation, ordered under the reference preorder wherever it is defined, stable, idempotent; " +
 	"(b) pairs and triples of pool scalars -> yq's own sort decisions must form a strict weak order (antisymmetric, transitive, equivalence transitive); (c) same-type pairs -> < <= > >= min max agree with the reference order; (d) maps -> sort_keys(..) permutes keys into code-point order and changes nothing else. " +
-	"non-trivial = length >= 3 with >= 2 distinct order classes, or a tie group, or an alternate-spelling/extreme number; distinct by input text"
+	"non-trivial = length >= 3 with >= 2 distinct order classes, or a tie group, or an alternate-spelling/extreme number; distinct by input text Sub multi: an ordering operator over 2-4 collections in one evaluation (`.[] | op`, a union of paths, eval-all over several documents) gives for each collection what it gives for that collection alone."
 
 func TestMain(m *testing.M) {
 	hx.Main(m, "C15", rule,
